@@ -49,12 +49,24 @@ fn gf(v: &Value) -> F12 {
 fn chk12(what: &str, got: &Fq12, want: &F12, ctx: &dyn Fn() -> String) -> Result<(), Bad> {
     let g = from_fq12(got)?;
     ensure!(&g == want, "wrong-value", "Fq12 {}: library {} , F_q[w]/(w^12+2) {} ; {}", what, jf(&g), jf(want), ctx());
+    // the serialisation reduces; the value itself must also BE that element: equal (library ==) to a freshly built
+    // element with the same coefficients, and zero exactly when the model value is zero
+    {
+        use sm9_core::Zero;
+        ensure!(*got == to_fq12(want), "non-canonical", "Fq12 {}: the result serialises as the right value {} but is != a freshly built element with these coefficients (unreduced representation) ; {}", what, jf(want), ctx());
+        ensure!(got.is_zero() == want.is_zero(), "non-canonical", "Fq12 {}: is_zero() = {} for the value {} ; {}", what, got.is_zero(), jf(want), ctx());
+    }
     Ok(())
 }
 fn chk4(what: &str, got: &Fq4, want: &F12, ctx: &dyn Fn() -> String) -> Result<(), Bad> {
     let g = from_fq4(got)?;
     ensure!(is_fq4(want), "oracle", "reference result of Fq4 {} is not in F_q4: {} ; {}", what, jf(want), ctx());
     ensure!(&g == want, "wrong-value", "Fq4 {}: library {} , reference {} ; {}", what, jf(&g), jf(want), ctx());
+    {
+        use sm9_core::Zero;
+        ensure!(*got == to_fq4(want), "non-canonical", "Fq4 {}: the result serialises as the right value {} but is != a freshly built element with these coefficients (unreduced representation) ; {}", what, jf(want), ctx());
+        ensure!(got.is_zero() == want.is_zero(), "non-canonical", "Fq4 {}: is_zero() = {} for the value {} ; {}", what, got.is_zero(), jf(want), ctx());
+    }
     Ok(())
 }
 
